@@ -48,13 +48,25 @@ def ival(x):
     return r
 
 
-def to_rows(a):
-    """summary output (n,) or (n, w) -> list of rows of ints."""
+NOT_INT = 999999           # a value read back from elfi that is not an integer of the input domain (e.g. filler memory)
+
+
+def ival_read(x):
+    x = float(x)
+    if not math.isfinite(x) or x != round(x) or abs(x) >= 100000:
+        return NOT_INT
+    return int(round(x))
+
+
+def to_rows(a, read=False):
+    """summary output (n,) or (n, w) -> list of rows of ints.  read=True: the array comes out of elfi (a sampler's
+    result); anything that is not a small integer is logged as NOT_INT and judged by the trace spec."""
     a = np.asarray(a)
+    f = ival_read if read else ival
     if a.ndim == 1:
-        return [[ival(x)] for x in a]
+        return [[f(x)] for x in a]
     if a.ndim == 2:
-        return [[ival(x) for x in r] for r in a]
+        return [[f(x) for x in r] for r in a]
     raise tlc.MachineryFailure("summary output of ndim %d" % a.ndim)
 
 
@@ -203,7 +215,7 @@ def record_dist(sc):
                 elif ev["mode"] == "model":
                     sim.table, sim.ids = ev["table"], []
                     res = model.generate(ev["bs"], outputs=names(widths) + ["d"], seed=ev["seed"])
-                    e["sums"] = [to_rows(res[n]) for n in names(widths)]
+                    e["sums"] = [to_rows(res[n], read=True) for n in names(widths)]
                     out = res["d"]
                 elif ev["mode"] == "sampler":
                     import elfi
@@ -211,7 +223,7 @@ def record_dist(sc):
                     rej = elfi.Rejection(d, batch_size=ev["bs"], seed=ev["seed"], output_names=names(widths),
                                          max_parallel_batches=1)
                     res = rej.sample(ev["n"], n_sim=ev["n_sim"], bar=False)
-                    e["sums"] = [to_rows(res.outputs[n]) for n in names(widths)]
+                    e["sums"] = [to_rows(res.outputs[n], read=True) for n in names(widths)]
                     out = res.outputs["d"]
                 else:
                     raise tlc.MachineryFailure("unknown mode %r" % ev["mode"])
@@ -220,11 +232,11 @@ def record_dist(sc):
             flat = out.reshape(-1)
             e["v"] = [enc(x, UD) for x in flat]
             e["sq"] = [enc(x * x, UD) for x in flat]
-            if log is not None and log.calls:
+            if log is not None and log.calls and ev["mode"] in ("with_values", "default_bs"):
                 X, Y = log.calls[-1]
                 e["xsh"], e["ysh"] = [int(s) for s in X.shape], [int(s) for s in Y.shape]
                 if X.ndim == 2 and Y.ndim == 2:
-                    e["x"], e["y"] = to_rows(X), to_rows(Y)
+                    e["x"], e["y"] = to_rows(X, read=True), to_rows(Y, read=True)
         except Hang:
             e["res"] = "hang"
         except tlc.MachineryFailure:
@@ -284,10 +296,12 @@ def record_adapt(sc):
                     res = rej.sample(st["n"], n_sim=st["n_sim"], bar=False)
                     data = [st["table"][i % len(st["table"])] for i in sim.ids]      # the simulator's own log
                     e["sums"] = sums_of_stacked(data, widths)
-                    e["rsums"] = [to_rows(res.outputs[n]) for n in names(widths)]
+                    e["rsums"] = [to_rows(res.outputs[n], read=True) for n in names(widths)]
                     e["shape"], e["v"], e["sq"] = matrix(res.outputs["d"], U)
-                    e["sc2"] = [enc(x * x, U) for x in np.asarray(d.state["scale"], dtype=float).reshape(-1)]
-                    e["nw"], e["nsim"], e["bs"] = len(d.state["w"]), int(res.n_sim), st["bs"]
+                    # the sampler works on its own copy of the model; the copy's node holds state['scale']
+                    dn = rej.model["d"]
+                    e["sc2"] = [enc(x * x, U) for x in np.asarray(dn.state["scale"], dtype=float).reshape(-1)]
+                    e["nw"], e["nsim"], e["bs"] = len(dn.state["w"]), int(res.n_sim), st["bs"]
                 else:
                     raise tlc.MachineryFailure("unknown op %r" % op)
         except Hang:
@@ -320,7 +334,7 @@ def metric_descriptors(mm, rnd):
     V = [rnd.choice([1, 4, 4, 2]) for _ in range(mm)]
     VI = [[0] * mm for _ in range(mm)]
     for a in range(mm):
-        VI[a][a] = rnd.randint(1, 3)
+        VI[a][a] = rnd.randint(2, 3)          # diagonally dominant: positive semi-definite, so the metric is real
         if a + 1 < mm:
             VI[a][a + 1] = VI[a + 1][a] = rnd.choice([0, 1, -1])
     out = []
@@ -601,27 +615,34 @@ CHECK_DEADLOCK FALSE
 
 
 def design(ctx):
-    q = ctx.quick
+    """O1.  The small configurations run with TLC's coverage statistics (every declared action must be taken);
+    the large ones of the thorough tier run without them (coverage costs a factor 3-7 here) - same modules, same
+    invariants, larger constants."""
     # Distance.tla: all shapes x metrics x data patterns, exhaustive data on the smallest shapes
-    ctx.tlc("Distance", "MC_Distance_code", cfg_text=dist_cfg(3 if q else 4, 3, 3, [0, 1] if q else [0, 1, 2, 3],
-                                                              [0, 1] if q else [0, 1, 2], "code"),
+    ctx.tlc("Distance", "MC_Distance_code", cfg_text=dist_cfg(3, 3, 3, [0, 1], [0, 1], "code"),
             expect_actions=["Eval"], workers=WORKERS, timeout=900)
     for variant in ("hstack", "noreshape"):
         ctx.tlc("Distance", "MC_Distance_%s" % variant, cfg_text=dist_cfg(2, 2, 2, [0], [], variant),
                 expect_ok=False, workers=WORKERS, timeout=300)
     # Welford.tla: every data set x every ordered partition (single round), then several rounds
-    single = [(1, range(4), 6), (2, range(3), 4)] if q else [(1, range(4), 7), (2, range(4), 4), (2, range(3), 5), (3, range(2), 4)]
-    for (C, vals, rows) in single:
+    for (C, vals, rows) in [(1, range(4), 6), (2, range(3), 3)]:
         ctx.tlc("Welford", "MC_Welford_c%d_v%d_n%d" % (C, len(vals), rows), cfg_text=welford_cfg(C, vals, rows, 0, "code"),
                 expect_actions=["AddDataAct"], workers=WORKERS, timeout=1200)
-    multi = [(1, range(3), 3, 2)] if q else [(1, range(3), 3, 3), (2, range(2), 3, 2)]
-    for (C, vals, rows, rounds) in multi:
+    for (C, vals, rows, rounds) in [(1, range(2), 3, 3)]:
         ctx.tlc("Welford", "MC_Welford_c%d_v%d_n%d_r%d" % (C, len(vals), rows, rounds),
                 cfg_text=welford_cfg(C, vals, rows, rounds, "code"), expect_actions=["AddDataAct", "Update"],
                 workers=WORKERS, timeout=1800)
     for variant in ("perbatch", "delta1sq", "sample"):
         ctx.tlc("Welford", "MC_Welford_%s" % variant, cfg_text=welford_cfg(1, range(3), 4, 0, variant),
                 expect_ok=False, workers=WORKERS, timeout=300)
+    if ctx.quick:
+        return
+    ctx.tlc("Distance", "MC_Distance_code_large", cfg_text=dist_cfg(4, 3, 3, [0, 1, 2, 3], [0, 1, 2], "code"),
+            workers=WORKERS, timeout=1800, coverage=False)
+    for (C, vals, rows, rounds) in [(1, range(4), 7, 0), (2, range(4), 4, 0), (2, range(3), 5, 0), (3, range(2), 4, 0),
+                                    (1, range(3), 3, 3), (2, range(2), 3, 2)]:
+        ctx.tlc("Welford", "MC_Welford_c%d_v%d_n%d_r%d" % (C, len(vals), rows, rounds),
+                cfg_text=welford_cfg(C, vals, rows, rounds, "code"), workers=WORKERS, timeout=2400, coverage=False)
 
 
 def run(ctx):
